@@ -471,6 +471,7 @@ class Verifier:
         return res
 
     def explore(self):
+        self.owner = {}
         work = [[]]
         n = 0
         while work:
@@ -570,6 +571,10 @@ class Verifier:
                 # an arbitrary history of operations on the returned object (and on handles it hands out);
                 # the consumer loop itself is a cut point, so histories are unbounded
                 H = {"self": r}
+                for hname, (ispec, rspec) in (job.opts.get("handles") or {}).items():
+                    spec = ispec if ip.side == "impl" else rspec
+                    if spec is not None:
+                        H[hname] = self.resolve(self.impl_prog if ip.side == "impl" else self.ref_prog, spec)
                 ip.roots = H
                 proto = job.protocol
                 while True:
@@ -1049,6 +1054,9 @@ class Verifier:
             f = cmpf(self, ie, re_) if cmpf else (ie.payload == re_.payload)
         ok = self.prove(ctx, nm, "event-match", f,
                         detail=f"impl does {self.ev_desc(ie)} where the reference does {self.ev_desc(re_)}")
+        if ok and ie.kind == "Result" and hasattr(job.protocol, "expect"):
+            for oname, cond, why in job.protocol.expect(self, ie.payload[0]):
+                self.prove(ctx, f"{job.name}/{oname}", "frame", cond, detail=why)
         if ok and ie.kind == "Yielded":
             self.check_protocol(ctx, "at-yield")
         return ok
@@ -1166,7 +1174,7 @@ class Verifier:
         if key in self.open_cuts:
             self.cut_step(ctx, key, w)
             raise PathEnd()
-        do_cut = key in self.cut_keys or key in self.seen_keys
+        do_cut = key in self.cut_keys or key in self.seen_keys or site == (-1, 0)
         if not do_cut:
             akey, wa = self.state_key(impl_i, ref_i, site, True)
             if akey in self.seen_akeys:
@@ -1204,6 +1212,15 @@ class Verifier:
         if key not in self.cut_keys:
             self.cut_keys.add(key)
             self.new_keys = True
+        # each cut point is explored from its generic (havocked) state by ONE path prefix per round - its owner;
+        # any other path arriving there only has to establish the invariant (cut-point induction)
+        prefix = tuple(ctx.decisions[:ctx.di])
+        own = self.owner.get(key)
+        if own is None:
+            self.owner[key] = prefix
+        elif own != prefix:
+            self.cut_arrive(ctx, key, w)
+            raise PathEnd()
         self.cut_enter(ctx, key, w)
 
     def filter_valid(self, ctx, formulas):
@@ -1240,6 +1257,36 @@ class Verifier:
                         bad.add(n)
                 break
         return bad
+
+    def cut_arrive(self, ctx, key, w):
+        """arrival at a cut point owned by another path: the invariant must hold here (init), nothing else"""
+        terms = {s.path: s.get() for s in w.slots}
+        cands = self.cands.get(key)
+        if cands is None:
+            return
+        entry = dict(terms)
+        fs = {}
+        for name in cands:
+            if name.endswith(" unchanged") or name.endswith(">= entry"):
+                continue        # relative to the entry state: trivially true on arrival
+            try:
+                fs[name] = cands[name](terms, entry)
+            except KeyError:
+                fs[name] = False
+        for name in self.filter_valid(ctx, fs):
+            if name.startswith("declared:"):
+                if self.final:
+                    self.result.record(f"{self.job.name}/inv-declared/{name}", "inv-declared", False,
+                                       detail="declared invariant does not hold on arrival", trace=list(self.trace))
+                continue
+            if self.final:
+                self.result.record(f"{self.job.name}/inv-init/L{key[0][0]}/{name}", "inv-init", False,
+                                   detail=f"invariant {name} does not hold on arrival at the cut point", trace=list(self.trace))
+            else:
+                del cands[name]
+                self.changed = True
+        if self.final:
+            self.result.record(f"{self.job.name}/inv-init/L{key[0][0]}", "inv-init", True)
 
     def cut_enter(self, ctx, key, w):
         slots = w.slots
